@@ -619,7 +619,7 @@ func runOrd1(m *Model, r *RuleResult) {
 		for _, d := range deps {
 			bo, ok := d.If.Cond.(*ssa.BinOp)
 			good := false
-			if ok && bo.Op == token.NEQ && d.Branch == 0 {
+			if ok && ((bo.Op == token.NEQ && d.Branch == 0) || (bo.Op == token.EQL && d.Branch == 1)) {
 				if u, ok := bo.X.(*ssa.UnOp); ok && u.Op == token.MUL {
 					if gg, ok := u.X.(*ssa.Global); ok && gg.Name() == "m" {
 						if c, ok := bo.Y.(*ssa.Const); ok && c.Value == nil {
